@@ -461,7 +461,10 @@ class Ctx:
             a = ax[i] if i < len(ax) else ["?"]
             self.obligations.append((t, True, a))
             self.axioms.update(a)
-        self.log(f"{props_file}: {len(printed)} theorems checked; axioms: {sorted(self.axioms) or 'none (closed under the global context)'}")
+        prim = [a for a in self.axioms if a.split(".")[0] in ("PrimFloat", "PrimInt63", "FloatAxioms", "Uint63")]
+        other = sorted(set(self.axioms) - set(prim))
+        self.log(f"{props_file}: {len(printed)} theorems checked; axioms: {other or 'none (closed under the global context)'}"
+                 + (f" + {len(prim)} primitive int/float operations and their specifications (used by the interval tactic)" if prim else ""))
         return True
 
     def add_obligation(self, name, ok, note=""):
